@@ -3,7 +3,7 @@
    `parse_svg_element` is a fold of a two-rule state machine over the declarations that mention `a`;
    the spelling theorems of C09 are corollaries. *)
 From Coq Require Import String Permutation.
-From RV Require Import Model.Base Gen.SvgTables Gen.Units Model.Cascade.
+From RV Require Import Model.Base Gen.SvgTables Gen.Units Model.CascadeBase Gen.SvgInsert Model.Cascade.
 
 (* ---- decidable equality of the generated enumerations ---------------------------------------- *)
 Lemma AId_of_idx_idx a : AId_of_idx (AId_idx a) = Some a.
@@ -163,16 +163,44 @@ Proof.
       specialize (H3 nw a Hn). rewrite E in H3. exact H3.
 Qed.
 
+(* list facts behind the source-derived fix-up block *)
+Lemma set_nth_app_last cur x y : set_nth (length cur) y (cur ++ [x]) = cur ++ [y].
+Proof. induction cur as [|c r IH]; simpl; [reflexivity | rewrite IH; reflexivity]. Qed.
+Lemma set_nth_app_l i y cur m : (i < length cur)%nat -> set_nth i y (cur ++ m) = set_nth i y cur ++ m.
+Proof.
+  revert i. induction cur as [|c r IH]; intros i H; simpl in H; [lia|].
+  destruct i as [|k]; simpl; [reflexivity|]. rewrite IH by lia. reflexivity.
+Qed.
+Lemma nth_error_app_last {A} (cur : list A) x : nth_error (cur ++ [x]) (length cur) = Some x.
+Proof. induction cur; simpl; [reflexivity | assumption]. Qed.
+(* the translated block: with the existing attribute `ex` at position i of `cur` and the new one appended *)
+Lemma insert_fixup_spec cur nw i ex :
+  nth_error cur i = Some ex ->
+  insert_fixup (cur ++ [nw]) i = if new_has_precedence (a_imp ex) then set_nth i nw cur else cur.
+Proof.
+  intro H. assert (Hi : (i < length cur)%nat) by (apply nth_error_Some; congruence).
+  unfold insert_fixup. cbv zeta.
+  assert (Hl : (length (cur ++ [nw]) - 1)%nat = length cur) by (rewrite app_length; simpl; lia).
+  rewrite Hl.
+  assert (Himp : attr_important (cur ++ [nw]) i = a_imp ex).
+  { unfold attr_important. rewrite nth_error_app1 by exact Hi. rewrite H. reflexivity. }
+  rewrite Himp. unfold new_has_precedence.
+  destruct (negb (a_imp ex)).
+  - unfold swap_nth. rewrite nth_error_app1 by exact Hi. rewrite H, nth_error_app_last.
+    rewrite set_nth_app_last, set_nth_app_l by exact Hi. apply removelast_last.
+  - apply removelast_last.
+Qed.
+
 Lemma insert_attribute_lookup anc tag cur b v imp a :
   get_attr a (insert_attribute anc tag cur b v imp)
   = fold_left step (cand_one anc tag a v imp b) (get_attr a cur).
 Proof.
-  unfold insert_attribute, cand_one.
+  unfold insert_attribute, cand_one. cbv zeta.
   destruct (resolve_value anc tag b v imp) as [nw|] eqn:R.
   - pose proof (resolve_value_name _ _ _ _ _ _ R) as Hn.
     destruct (position b cur) as [i|] eqn:P.
     + destruct (position_some _ _ _ P) as [ex [H1 [H2 H3]]].
-      rewrite H1.
+      rewrite (insert_fixup_spec cur nw i ex H1).
       destruct (AId_eqb b a) eqn:E.
       * apply AId_eqb_eq in E. subst a. simpl. rewrite H2.
         destruct (new_has_precedence (a_imp ex)); [|exact H2].
